@@ -139,7 +139,9 @@ def run_property(prop, modname, tier, seed, replay_dir=None, jobs=None):
     ncross = 3 if tier == 'quick' else 12
     args = [(modname, i, tier, seed, ncross) for i in range(len(cfgs))]
     jobs = jobs or min(16, max(1, len(args)))
-    if jobs > 1 and len(args) > 1:
+    if not args:
+        outs = []
+    elif jobs > 1 and len(args) > 1:
         with mp.get_context('fork').Pool(jobs) as pool:
             outs = pool.map(_job, args, chunksize=1)
     else:
@@ -249,8 +251,9 @@ def finish(prop, mod, tier, seed, outs, extra, t0):
                 k = match_known(known, r['name'], r.get('witness'))
                 if k is not None:
                     known_hits.append((k, r))
+                    obligations -= 1
                 else:
-                    violations.append((dict(name=e.get('name', 'extra'), cfg={}, contract=e.get('name')), r))
+                    violations.append((dict(name=e.get('name', 'extra'), cfg={}, contract=None), r))
             elif r['status'] == 'fault':
                 faults.append(f"{r['name']}: {r.get('detail', '')[:500]}")
             else:
